@@ -38,7 +38,8 @@ Definition cfg (chap : bool) : config :=
   {| c_mac := 1; c_service := []; c_acname := [65]; c_chap := chap; c_mru := 1492; c_radius := false;
      c_has_pool := true; c_pool := [167772162]; c_server_ip := 167772161; c_dns1 := Some 134744072; c_dns2 := Some 134743044 |}.
 Definition s0 : sess :=
-  {| s_id := 1; s_mac := 77; s_state := StLCP; s_auth := false; s_ip := None; s_lcpid := 0; s_pin := 0; s_pout := 0; s_inst := 0 |}.
+  {| s_id := 1; s_mac := 77; s_state := StLCP; s_auth := false; s_ip := None; s_lcpid := 0; s_pin := 0; s_pout := 0; s_inst := 0;
+     s_hu := None; s_svc := []; s_user := [] |}.
 Definition payload (f : eframe) : bytes := match f with ESess _ _ _ d => d | EDisc _ _ _ _ => [] end.
 Definition proto_of (f : eframe) : N := match f with ESess _ _ p _ => p | EDisc _ _ _ _ => 0 end.
 Definition frames (r : sres) : list eframe := r_frames r.
